@@ -33,6 +33,13 @@ Definition change_scale (del : bool) (set : string) (e : Z) (c : cluster) : clus
                     else pvcs c |}
   end.
 
+(* with a failing StatefulSet update (conflict, API error): the error is returned before anything else happens *)
+Definition change_scale_f (upd_fails del : bool) (set : string) (e : Z) (c : cluster) : cluster * bool :=
+  match spec_replicas c with
+  | None => (c, false)
+  | Some old => if old =? e then (c, false) else if upd_fails then (c, true) else (change_scale del set e c, false)
+  end.
+
 (* ps[p.Name] = p over the listed pods: a later pod with the same name wins *)
 Definition pod_map (pods : list pod) : list (string * pod) :=
   map (fun p => (p_name p, p)) (rev pods).
